@@ -171,62 +171,92 @@ def linesFile (today : String) (w : Writer) (d : Doc) (u : String) : String :=
   if truthy w.filename then w.filename.getD ""
   else if d.name = "start" then splitHead u "-" ++ ".jsonl" else today ++ ".jsonl"
 
+/-- what is put between the old content and the first new record: a newline iff the old content is
+    non-empty and its last line is unterminated -/
+def lineFix (pre : String) : String := if pre ≠ "" ∧ endsWith '\n' pre = false then "\n" else ""
+
 theorem append_ne_empty (a b : String) (hb : b ≠ "") : a ++ b ≠ "" := by
   intro h
   have := congrArg String.toList h
   simp at this
   exact hb this.2
 
-/-- one call, file name already decided: `dumps ++ "\n"` is put after whatever the file holds -/
-theorem linesCall_known (today : String) (w : Writer) (fs : FS) (d : Doc) (fn : String)
-    (hw : w.filename = some fn) (hne : fn ≠ "") :
+/-- one call once the file name is known (`fn`): the new content is the old content, a newline if
+    the old content was non-empty and unterminated, and `dumps ++ "\n"`. -/
+theorem linesCall_text (today : String) (w : Writer) (fs : FS) (d : Doc) (fn : String)
+    (hfn : (if truthy w.filename then w.filename
+            else if d.name = linesStartName then d.uid.map fun u => splitHead u linesUidSep ++ linesExt
+            else some (today ++ linesExt)) = some fn) :
     (linesCall today w fs d).1 = ⟨some fn⟩ ∧ (linesCall today w fs d).2.2 = .ok ∧
-    (linesCall today w fs d).2.1.get fn = some ((fs.get fn).getD "" ++ (d.text ++ "\n")) ∧
+    (linesCall today w fs d).2.1.get fn
+      = some ((fs.get fn).getD "" ++ lineFix ((fs.get fn).getD "") ++ (d.text ++ "\n")) ∧
     (∀ q, q ≠ fn → (linesCall today w fs d).2.1.get q = fs.get q) := by
   unfold linesCall
-  simp only [hw, truthy, bne_iff_ne, ne_eq, hne, not_false_eq_true, decide_true, if_true]
-  refine ⟨trivial, trivial, ?_, ?_⟩
-  · rw [openWrite_get]
-    cases hg : fs.get fn <;> simp [linesModeIfExists, linesModeIfMissing, linesOps, render]
-  · intro q hq
-    rw [openWrite_get]; simp [hq]
+  simp only [hfn]
+  cases hg : fs.get fn with
+  | none =>
+    simp [linesModeIfExists, linesModeIfMissing, linesRepairs, linesRepairGuardMode, linesOps, render,
+      openWrite_get, lineFix, hg]
+    intro q hq; simp [hq]
+  | some c =>
+    by_cases hc : c = ""
+    · subst hc
+      simp [linesModeIfExists, linesModeIfMissing, linesRepairs, linesRepairGuardMode, linesOps, render,
+        openWrite_get, lineFix, hg]
+      intro q hq; simp [hq]
+    · cases he : endsWith '\n' c
+      · simp [linesModeIfExists, linesModeIfMissing, linesRepairs, linesRepairGuardMode, linesOps,
+          linesRepairOps, linesTerminator, render, openWrite_get, lineFix, hg, hc, he, String.append_assoc]
+        intro q hq; simp [hq]
+      · simp [linesModeIfExists, linesModeIfMissing, linesRepairs, linesRepairGuardMode, linesOps,
+          linesRepairOps, linesTerminator, render, openWrite_get, lineFix, hg, hc, he]
+        intro q hq; simp [hq]
 
+theorem lineFix_terminated (x : String) : lineFix (x ++ "\n") = "" := by
+  simp [lineFix, endsWith_append_nl]
+
+/-- later calls: the file is newline-terminated, each call appends `dumps ++ "\n"` -/
 theorem lines_rest (today : String) (fn : String) (hne : fn ≠ "") (ds : List Doc) (w : Writer)
-    (hw : w.filename = some fn) (fs : FS) :
-    ((runCalls (linesCall today) w fs ds).2.1.get fn).getD ""
-      = (fs.get fn).getD "" ++ concatAll (ds.map (·.text ++ "\n")) ∧
-    (ds ≠ [] → ((runCalls (linesCall today) w fs ds).2.1.get fn).isSome = true) ∧
+    (hw : w.filename = some fn) (fs : FS) (c : String) (hc : fs.get fn = some (c ++ "\n")) :
+    (runCalls (linesCall today) w fs ds).2.1.get fn
+      = some (c ++ "\n" ++ concatAll (ds.map (·.text ++ "\n"))) ∧
     (∀ q, q ≠ fn → (runCalls (linesCall today) w fs ds).2.1.get q = fs.get q) ∧
     (runCalls (linesCall today) w fs ds).2.2 = List.replicate ds.length .ok := by
-  induction ds generalizing w fs with
-  | nil => simp [runCalls, concatAll]
+  induction ds generalizing w fs c with
+  | nil => simp [runCalls, concatAll, hc]
   | cons d ds ih =>
-    obtain ⟨k1, k2, k3, k4⟩ := linesCall_known today w fs d fn hw hne
-    obtain ⟨i1, i2, i3, i4⟩ := ih (linesCall today w fs d).1 (by rw [k1]) (linesCall today w fs d).2.1
+    have hfn : (if truthy w.filename then w.filename
+            else if d.name = linesStartName then d.uid.map fun u => splitHead u linesUidSep ++ linesExt
+            else some (today ++ linesExt)) = some fn := by
+      simp [hw, truthy, hne]
+    obtain ⟨k1, k2, k3, k4⟩ := linesCall_text today w fs d fn hfn
+    rw [hc] at k3
+    simp only [Option.getD_some, lineFix_terminated, String.append_empty] at k3
+    have k3' : (linesCall today w fs d).2.1.get fn = some ((c ++ "\n" ++ d.text) ++ "\n") := by
+      rw [k3]; simp [String.append_assoc]
+    obtain ⟨i1, i3, i4⟩ := ih (linesCall today w fs d).1 (by rw [k1]) (linesCall today w fs d).2.1 _ k3'
     simp only [runCalls]
-    refine ⟨?_, ?_, ?_, ?_⟩
-    · rw [i1, k3]; simp [concatAll, String.append_assoc]
-    · intro _
-      cases ds with
-      | nil => simp [runCalls, k3]
-      | cons d2 ds2 => exact i2 (by simp)
+    refine ⟨?_, ?_, ?_⟩
+    · rw [i1]; simp [concatAll, String.append_assoc]
     · intro q hq; rw [i3 q hq, k4 q hq]
     · simp [i4, k2, List.replicate_succ]
 
-/-- APPEND ONLY.  For ANY directory content (the target file may or may not exist, with ANY
-    content), any constructor `filename`, and ANY positive number of documents with any names:
-    afterwards the file is its previous content followed by `dumps(record) ++ "\n"` for each
-    document in order -- nothing earlier is lost or changed; every call succeeded; no other file
-    is touched.  (`u` is the uid of the first document when it is a start document.) -/
+/-- APPEND ONLY.  For ANY directory content (the target file may or may not exist, with ANY content,
+    terminated or not), any constructor `filename`, and ANY positive number of documents with any
+    names: afterwards the file is its previous content, then a newline iff that content was non-empty
+    and did not end with one, then `dumps(record) ++ "\n"` for each document in order -- so the
+    previous content is a prefix of the new content (nothing lost or changed); every call succeeded;
+    no other file is touched.  (`u` is the uid of the first document when it is a start document.) -/
 theorem C34_lines_append (today : String) (w : Writer) (fs : FS) (d : Doc) (ds : List Doc) (u : String)
     (hu : d.name = "start" → d.uid = some u) :
     (runCalls (linesCall today) w fs (d :: ds)).2.1.get (linesFile today w d u)
-      = some ((fs.get (linesFile today w d u)).getD "" ++ concatAll ((d :: ds).map (·.text ++ "\n"))) ∧
+      = some ((fs.get (linesFile today w d u)).getD "" ++ lineFix ((fs.get (linesFile today w d u)).getD "")
+          ++ concatAll ((d :: ds).map (·.text ++ "\n"))) ∧
     (runCalls (linesCall today) w fs (d :: ds)).2.2 = List.replicate (ds.length + 1) .ok ∧
     (∀ q, q ≠ linesFile today w d u →
       (runCalls (linesCall today) w fs (d :: ds)).2.1.get q = fs.get q) := by
   -- the first call decides the file name; from then on `self.filename` is that non-empty name
-  have hfn : linesFile today w d u ≠ "" := by
+  have hne : linesFile today w d u ≠ "" := by
     unfold linesFile
     by_cases ht : truthy w.filename = true
     · rw [if_pos ht]
@@ -235,12 +265,10 @@ theorem C34_lines_append (today : String) (w : Writer) (fs : FS) (d : Doc) (ds :
       | some f => simpa [hw, truthy] using ht
     · rw [if_neg ht]
       split <;> exact append_ne_empty _ _ (by decide)
-  have hfirst : linesCall today w fs d =
-      (⟨some (linesFile today w d u)⟩,
-       openWrite fs (linesFile today w d u)
-         (if (fs.get (linesFile today w d u)).isSome then linesModeIfExists else linesModeIfMissing)
-         (render linesOps d.text), .ok) := by
-    unfold linesCall linesFile
+  have hfn : (if truthy w.filename then w.filename
+            else if d.name = linesStartName then d.uid.map fun u => splitHead u linesUidSep ++ linesExt
+            else some (today ++ linesExt)) = some (linesFile today w d u) := by
+    unfold linesFile
     cases hw : w.filename with
     | none =>
       by_cases hn : d.name = "start"
@@ -252,57 +280,51 @@ theorem C34_lines_append (today : String) (w : Writer) (fs : FS) (d : Doc) (ds :
         · simp [truthy, hf, linesStartName, hn, hu hn, linesUidSep, linesExt]
         · simp [truthy, hf, linesStartName, hn, linesExt]
       · simp [truthy, hf]
-  have hget1 : (linesCall today w fs d).2.1.get (linesFile today w d u)
-      = some ((fs.get (linesFile today w d u)).getD "" ++ (d.text ++ "\n")) := by
-    rw [hfirst, openWrite_get]
-    cases hg : fs.get (linesFile today w d u) <;> simp [linesModeIfExists, linesModeIfMissing, linesOps, render]
-  obtain ⟨i1, _, i3, i4⟩ := lines_rest today _ hfn ds (linesCall today w fs d).1 (by rw [hfirst])
-    (linesCall today w fs d).2.1
+  obtain ⟨k1, k2, k3, k4⟩ := linesCall_text today w fs d _ hfn
+  have k3' : (linesCall today w fs d).2.1.get (linesFile today w d u)
+      = some (((fs.get (linesFile today w d u)).getD "" ++ lineFix ((fs.get (linesFile today w d u)).getD "") ++ d.text) ++ "\n") := by
+    rw [k3]; simp [String.append_assoc]
+  obtain ⟨i1, i3, i4⟩ := lines_rest today _ hne ds (linesCall today w fs d).1 (by rw [k1])
+    (linesCall today w fs d).2.1 _ k3'
   simp only [runCalls]
   refine ⟨?_, ?_, ?_⟩
-  · have hsome : ((runCalls (linesCall today) (linesCall today w fs d).1 (linesCall today w fs d).2.1 ds).2.1.get
-        (linesFile today w d u)).isSome = true := by
-      cases ds with
-      | nil => simp [runCalls, hget1]
-      | cons d2 ds2 =>
-        exact (lines_rest today _ hfn (d2 :: ds2) (linesCall today w fs d).1 (by rw [hfirst])
-          (linesCall today w fs d).2.1).2.1 (by simp)
-    rw [hget1] at i1
-    obtain ⟨c, hc⟩ := Option.isSome_iff_exists.mp hsome
-    rw [hc] at i1 ⊢
-    simp only [Option.getD_some] at i1
-    rw [i1]
-    simp [concatAll, String.append_assoc]
-  · rw [i4, hfirst]; simp [List.replicate_succ]
-  · intro q hq
-    rw [i3 q hq, hfirst, openWrite_get]; simp [hq]
+  · rw [i1]; simp [concatAll, String.append_assoc]
+  · rw [i4, k2]; simp [List.replicate_succ]
+  · intro q hq; rw [i3 q hq, k4 q hq]
 
-/-- FULL STATEMENT of "one independently parseable line per document" at the level of lines, for
-    ARBITRARY pre-existing content.  It is FALSE when the pre-existing file does not end with a
-    newline (see Counterexamples/C34.lean): the first record is glued to the last old line. -/
-def C34_lines_full : Prop :=
-  ∀ (pre : String) (texts : List String), (∀ t ∈ texts, '\n' ∉ t.toList) →
-    linesOf (pre ++ concatAll (texts.map (· ++ "\n"))).toList = linesOf pre.toList ++ texts.map String.toList
-
-/-- What holds: if the pre-existing content is empty or newline-terminated (true of every file this
-    writer produced) and no `dumps` text contains a raw newline (ASSUMPTION on json.dumps, checked in
-    every run), the lines of the file are the old lines followed by exactly one line per document,
-    each line being that document's text -- so each parses on its own to its record. -/
-theorem C34_lines_parse_partial (pre : String) (texts : List String)
-    (hpre : pre = "" ∨ ∃ p, pre = p ++ "\n") (ht : ∀ t ∈ texts, '\n' ∉ t.toList) :
-    linesOf (pre ++ concatAll (texts.map (· ++ "\n"))).toList = linesOf pre.toList ++ texts.map String.toList := by
+/-- ONE LINE PER DOCUMENT, for ARBITRARY pre-existing content (empty, newline-terminated, or with
+    an unterminated last line): if no `dumps` text contains a raw newline (ASSUMPTION on json.dumps,
+    checked in every run), the lines of the file afterwards are the old lines followed by exactly
+    one line per document, each line being that document's text -- so each parses on its own to its
+    record and every old line is still there. -/
+theorem C34_lines_full (pre : String) (texts : List String) (ht : ∀ t ∈ texts, '\n' ∉ t.toList) :
+    linesOf (pre ++ lineFix pre ++ concatAll (texts.map (· ++ "\n"))).toList
+      = linesOf pre.toList ++ texts.map String.toList := by
   have hnew := concat_lines_toList texts
   have hl := linesOf_lines (texts.map String.toList) (by
     intro t htm
     obtain ⟨s, hs, e⟩ := List.mem_map.mp htm
     subst e; exact ht s hs)
-  rw [String.toList_append, hnew]
-  rcases hpre with e | ⟨p, e⟩
-  · subst e; simp [hl, linesOf]
-  · subst e
-    rw [String.toList_append]
-    have : ("\n" : String).toList = ['\n'] := rfl
-    rw [this, List.append_assoc, List.singleton_append, linesOf_append_terminated, hl]
+  have hnl : ("\n" : String).toList = ['\n'] := rfl
+  by_cases hp : pre = ""
+  · subst hp
+    simp [lineFix, hnew, hl, linesOf]
+  · cases he : endsWith '\n' pre
+    · -- unterminated last line: a newline is written first
+      have hne : pre.toList ≠ [] := by
+        intro e; apply hp; apply String.toList_inj.mp; simpa using e
+      have hlast : pre.toList.getLast? ≠ some '\n' := by
+        intro e; simp [endsWith, e] at he
+      simp only [lineFix, hp, he, ne_eq, not_false_eq_true, and_self, if_true, String.toList_append, hnl, hnew]
+      rw [List.append_assoc, List.singleton_append, linesOf_append_terminated, hl,
+        linesOf_terminate _ hne hlast]
+    · obtain ⟨p, e⟩ := (endsWith_iff '\n' pre).mp he
+      have hs : String.singleton '\n' = "\n" := rfl
+      rw [hs] at e
+      subst e
+      simp only [lineFix, endsWith_append_nl, String.toList_append, hnl, hnew]
+      simp only [Bool.true_eq_false, and_false, if_false, String.toList_empty, List.append_nil]
+      rw [List.append_assoc, List.singleton_append, linesOf_append_terminated, hl]
 
 /-! ### non-vacuity -/
 
@@ -322,6 +344,7 @@ example : ∃ c, (runCalls (linesCall "2026-09-21") ⟨none⟩ [("ab.jsonl", "0\
     [⟨"start", "1", some "ab-cd"⟩, ⟨"stop", "3", none⟩]).2.1.get (linesFile "2026-09-21" ⟨none⟩ ⟨"start", "1", some "ab-cd"⟩ "ab-cd") = some c :=
   ⟨_, (C34_lines_append "2026-09-21" ⟨none⟩ [("ab.jsonl", "0\n")] ⟨"start", "1", some "ab-cd"⟩
     [⟨"stop", "3", none⟩] "ab-cd" (fun _ => rfl)).1⟩
+example : lineFix "{\"a\": 1}" = "\n" ∧ lineFix "x\n" = "" ∧ lineFix "" = "" := by decide
 example : linesOf "0\n1\n3\n".toList = ["0".toList, "1".toList, "3".toList] := by decide
 
 end BlueskyVerif.C34
